@@ -5,6 +5,7 @@ import (
 	"math"
 	"sort"
 	"testing"
+	"time"
 
 	"github.com/platinummonkey/go-concurrency-limits/core"
 	"github.com/platinummonkey/go-concurrency-limits/measurements"
@@ -136,7 +137,11 @@ func TestC18(t *testing.T) {
 				var op measOp
 				switch k := r.Intn(20); {
 				case k < 14:
-					op = measOp{1, []int64{FBits(genSample(r, base))}}
+					x := genSample(r, base)
+					if cur := m.Get(); r.Bool(12) && cur > 0x1p-500 && cur < 0x1p500 {
+						x = cur // a sample equal to the stored value: averaging it with itself may still move the value by an ulp
+					}
+					op = measOp{1, []int64{FBits(x)}}
 				case k < 16:
 					op = measOp{2, nil}
 				case k < 18:
@@ -345,5 +350,64 @@ func TestC18(t *testing.T) {
 		}
 		sort.Strings(key)
 		rep.Distinct("window", fmt.Sprint(key))
+	}
+}
+
+// ---------------- C18 under interleaving: Update is a read-modify-write; an Add that arrives while the operation runs is ordered
+// before or after it, never lost or half-applied.  Real time (the Add waits on the instance's mutex while the operation is parked). ----------------
+func TestC18Interleaved(t *testing.T) {
+	rep := NewReport("C18interleaved")
+	defer rep.Write(t)
+	root := NewRng(Seed())
+	n := Scale(12, 120)
+	for kind := 1; kind <= 6; kind++ {
+		for ci := 0; ci < n; ci++ {
+			r := root.Fork()
+			cfg := genMeasCfg(r, kind)
+			base := float64(r.Pick(10, 1000, 1_000_000))
+			var warm []float64
+			for i := r.Intn(6); i > 0; i-- {
+				warm = append(warm, genSample(r, base))
+			}
+			x := genSample(r, base)
+			factor := []float64{0.5, 2, 0.9}[r.Intn(3)]
+			mk := func() core.MeasurementInterface {
+				m := newMeas(cfg)
+				if m == nil {
+					return nil
+				}
+				for _, w := range warm {
+					m.Add(w)
+				}
+				return m
+			}
+			m, ua, au := mk(), mk(), mk()
+			if m == nil {
+				continue
+			}
+			op := func(v float64) float64 { return v * factor }
+			ua.Update(op)
+			ua.Add(x) // order 1: Update, then Add
+			au.Add(x)
+			au.Update(op) // order 2: Add, then Update
+			started, release, done := make(chan struct{}), make(chan struct{}), make(chan struct{}, 2)
+			go func() {
+				m.Update(func(v float64) float64 { close(started); <-release; return v * factor })
+				done <- struct{}{}
+			}()
+			<-started
+			go func() { m.Add(x); done <- struct{}{} }()
+			time.Sleep(3 * time.Millisecond) // the Add has reached the instance (it waits if Update holds the lock)
+			close(release)
+			<-done
+			<-done
+			got := m.Get()
+			rep.Evaluations++
+			rep.Distinct("update-add-interleaving", fmt.Sprint(kind, cfg.ints(), len(warm)))
+			if math.Float64bits(got) != math.Float64bits(ua.Get()) && math.Float64bits(got) != math.Float64bits(au.Get()) {
+				rep.Violate(measNames[kind]+":update-not-atomic", fmt.Sprintf("Update(x%v) overlapped by Add(%v) after warm-up %v left %v; Update-then-Add gives %v, Add-then-Update gives %v", factor, x, warm, got, ua.Get(), au.Get()),
+					map[string]interface{}{"component": "measurement", "cfg": cfg.ints(), "warmup": fmt.Sprint(warm), "add": x, "factor": factor})
+			}
+		}
 	}
 }
